@@ -12,6 +12,9 @@ use std::sync::{Arc, Mutex, MutexGuard};
 
 pub type Src<T> = Arc<Source<T>>;
 
+/// probes stop reacting with Pulls after this many received messages (keeps every scenario finite)
+pub const MAX_MSGS: usize = 96;
+
 #[derive(Debug)]
 pub struct HErr(pub u32);
 impl fmt::Display for HErr {
@@ -514,7 +517,12 @@ impl<T: ToVal + Send + Sync + 'static> Probe<T> {
                         slot[sub] = Some(tb);
                     }
                 }
-                let react = me.spec.react.get(ordinal).copied().unwrap_or(me.spec.react_default);
+                let mut react = me.spec.react.get(ordinal).copied().unwrap_or(me.spec.react_default);
+                // a sink may stop asking at any time; this one does after MAX_MSGS messages, so that
+                // unbounded iterators cannot make a scenario diverge
+                if ordinal >= MAX_MSGS && matches!(react, React::Pull | React::Pull2) {
+                    react = React::Nothing;
+                }
                 match react {
                     React::Nothing => {}
                     React::Pull => me.do_send(sub, SendKind::Pull, true),
@@ -767,7 +775,12 @@ impl<'a> Builder<'a> {
         match t {
             Topo::Puppet(id) => self.puppet_i64(*id),
             Topo::FromIter { leaf, n } => {
-                Arc::new(callbag::from_iter(CountingIter::finite(self.world, *leaf, *n as u32)))
+                if *n == 255 {
+                    // unbounded iterator
+                    Arc::new(callbag::from_iter(CountingIter::custom(self.world, *leaf, None, leaf_value(*leaf, 0), 1)))
+                } else {
+                    Arc::new(callbag::from_iter(CountingIter::finite(self.world, *leaf, *n as u32)))
+                }
             }
             Topo::Map(f, c) => {
                 let f = *f;
